@@ -55,6 +55,9 @@ func main() {
 		defer sol.Close()
 		ex := NewExec(P.prog, sol)
 		ex.params, ex.sparams = params, sparams
+		if os.Getenv("QSYM_FP") != "" {
+			ex.fpMode, ex.bvInts = true, true
+		}
 		ex.known = map[string]bool{}
 		stack := [][]int{nil}
 		paths, viol, aborted := 0, 0, 0
